@@ -161,14 +161,14 @@ fn main() {
     prof.w_put = 34; prof.w_update = 18; prof.w_delete = 12; prof.w_commit = 14; prof.w_reopen = 6; prof.w_crash = 0; prof.w_readonly = 1;
     prof.w_batch = 0; prof.w_skip = 0; prof.w_finalize = 0; prof.w_vacuum = 9; prof.w_doctor = 0; prof.w_ticket = 0;
     prof.emb_percent = 25; prof.wrong_dim_percent = 1; prof.instant_index_percent = 10;
-    prof.n_short = if args.thorough { 400 } else { 12 };
+    prof.n_short = if args.thorough { 40 } else { 12 };
     prof.short_len = (12, 44);
     prof.n_long = 0;
     prof.corpus = corpus();
     // the online generator never draws a doctor op (w_doctor = 0: a doctor run on an EMPTY memory is a known gap
     // between the shared Core model and the doctor's probe, not a vacuum matter); doctor(vacuum) histories are
     // generated here instead, offline, always on a memory that already holds committed frames
-    prof.corpus.extend(doctor_histories(args.seed, if args.thorough { 120 } else { 5 }, &prof));
+    prof.corpus.extend(doctor_histories(args.seed, if args.thorough { 14 } else { 5 }, &prof));
     let cfg = FamilyConfig {
         property: "C42",
         rule: "operation histories on a real .mv2 file and on the Lean Core model (full observation compared after every op) with \
@@ -247,9 +247,7 @@ fn main() {
                     if live.vec.as_ref().is_some_and(|r| r.as_ref().is_ok_and(|m| !m.is_empty())) { v.world.branches.push("vec-hits-compared".into()); }
                     // the snapshot's vector query exists only when the index had a known dimension then
                     let mut s2 = s.clone();
-                    // (a doctor run that was ASKED to rebuild the vector index empties it: finding of C14 / C21, not the vacuum's)
-                    let rebuilds_vec = matches!(v.op, Op::Doctor { rebuild_vec: true, .. });
-                    if s2.vec.is_none() || live.vec.is_none() || rebuilds_vec { s2.vec = live.vec.clone(); }
+                    if s2.vec.is_none() || live.vec.is_none() { s2.vec = live.vec.clone(); }
                     // a hit on an INACTIVE frame before the vacuum is a stale index entry (property C08's business);
                     // the vacuum's rebuild may drop it — but it must never report one itself
                     let inactive = |id: &u64| a.frames.get(*id as usize).is_none_or(|f| !f.active());
